@@ -47,40 +47,51 @@ inline uint64_t ekey(unsigned a, unsigned b) { return ((uint64_t)a << 32) | b; }
 inline Topo check_topology(const std::vector<Tri>& tris, const std::vector<unsigned>* live_nodes = nullptr, size_t node_slots = 0, const std::vector<char>* node_used = nullptr) {
     Topo t; t.F = (long)tris.size();
     if (tris.size() < 4) { t.fail("fewer than 4 triangles"); return t; }
-    std::map<uint64_t, int> directed;
-    std::set<unsigned> verts;
-    std::set<std::array<unsigned, 3>> seen;
+    std::vector<uint64_t> directed; directed.reserve(tris.size() * 3);
+    std::vector<std::array<unsigned, 3>> sorted_tris; sorted_tris.reserve(tris.size());
+    std::vector<unsigned> verts; verts.reserve(tris.size() * 3);
     for (size_t i = 0; i < tris.size(); i++) {
         const Tri& f = tris[i];
         if (f.a == f.b || f.b == f.c || f.a == f.c) { t.fail("triangle repeats a node"); return t; }
         if (node_slots && (f.a >= node_slots || f.b >= node_slots || f.c >= node_slots)) { t.fail("triangle refers to a node index out of range"); return t; }
         if (node_used && (!(*node_used)[f.a] || !(*node_used)[f.b] || !(*node_used)[f.c])) { t.fail("live triangle refers to a dead node"); return t; }
-        std::array<unsigned, 3> s = {f.a, f.b, f.c}; std::sort(s.begin(), s.end());
-        if (!seen.insert(s).second) { t.fail("two live triangles over the same three nodes"); return t; }
-        verts.insert(f.a); verts.insert(f.b); verts.insert(f.c);
-        directed[ekey(f.a, f.b)]++; directed[ekey(f.b, f.c)]++; directed[ekey(f.c, f.a)]++;
+        std::array<unsigned, 3> s = {f.a, f.b, f.c}; std::sort(s.begin(), s.end()); sorted_tris.push_back(s);
+        verts.push_back(f.a); verts.push_back(f.b); verts.push_back(f.c);
+        directed.push_back(ekey(f.a, f.b)); directed.push_back(ekey(f.b, f.c)); directed.push_back(ekey(f.c, f.a));
     }
+    std::sort(sorted_tris.begin(), sorted_tris.end());
+    if (std::adjacent_find(sorted_tris.begin(), sorted_tris.end()) != sorted_tris.end()) { t.fail("two live triangles over the same three nodes"); return t; }
+    std::sort(directed.begin(), directed.end());
+    if (std::adjacent_find(directed.begin(), directed.end()) != directed.end()) { t.fail("a directed edge is used by more than one triangle (non-manifold or inconsistent orientation)"); return t; }
     long und = 0;
-    for (auto& kv : directed) {
-        unsigned a = (unsigned)(kv.first >> 32), b = (unsigned)(kv.first & 0xffffffffu);
-        if (kv.second != 1) { t.fail("a directed edge is used by more than one triangle (non-manifold or inconsistent orientation)"); return t; }
-        auto it = directed.find(ekey(b, a));
-        if (it == directed.end()) { t.fail("an edge has only one triangle (open surface or inconsistent orientation)"); return t; }
+    for (uint64_t k : directed) {
+        unsigned a = (unsigned)(k >> 32), b = (unsigned)(k & 0xffffffffu);
+        if (!std::binary_search(directed.begin(), directed.end(), ekey(b, a))) { t.fail("an edge has only one triangle (open surface or inconsistent orientation)"); return t; }
         if (a < b) und++;
     }
+    std::sort(verts.begin(), verts.end()); verts.erase(std::unique(verts.begin(), verts.end()), verts.end());
     t.V = (long)verts.size(); t.E = und;
     if (t.V - t.E + t.F != 2) { std::ostringstream o; o << "V-E+F=" << (t.V - t.E + t.F) << " (V=" << t.V << ",E=" << t.E << ",F=" << t.F << ")"; t.fail(o.str()); return t; }
-    // vertex links: each must be a single cycle.  next[v][b] = c for triangle (v,b,c)
-    std::map<unsigned, std::map<unsigned, unsigned>> nxt;
-    for (const Tri& f : tris) { nxt[f.a][f.b] = f.c; nxt[f.b][f.c] = f.a; nxt[f.c][f.a] = f.b; }
-    for (auto& kv : nxt) {
-        auto& m = kv.second; size_t n = m.size(); unsigned start = m.begin()->first, cur = start; size_t steps = 0;
-        do { auto it = m.find(cur); if (it == m.end()) { t.fail("vertex link is not closed"); return t; } cur = it->second; steps++; } while (cur != start && steps <= n);
+    // vertex links: each must be a single cycle.  entry (v, b, c) for triangle (v,b,c): around v, b is followed by c
+    struct L { unsigned v, b, c; };
+    std::vector<L> lk; lk.reserve(tris.size() * 3);
+    for (const Tri& f : tris) { lk.push_back({f.a, f.b, f.c}); lk.push_back({f.b, f.c, f.a}); lk.push_back({f.c, f.a, f.b}); }
+    std::sort(lk.begin(), lk.end(), [](const L& x, const L& y) { return x.v != y.v ? x.v < y.v : x.b < y.b; });
+    for (size_t i = 0; i < lk.size();) {
+        size_t j = i; while (j < lk.size() && lk[j].v == lk[i].v) j++;
+        size_t n = j - i; unsigned start = lk[i].b, cur = start; size_t steps = 0;
+        do {
+            // find entry (v, cur)
+            size_t lo = i, hi = j; while (lo < hi) { size_t mid = (lo + hi) / 2; if (lk[mid].b < cur) lo = mid + 1; else hi = mid; }
+            if (lo >= j || lk[lo].b != cur) { t.fail("vertex link is not closed"); return t; }
+            cur = lk[lo].c; steps++;
+        } while (cur != start && steps <= n);
         if (cur != start || steps != n) { t.fail("vertex link is not a single cycle (pinched vertex)"); return t; }
+        i = j;
     }
     if (live_nodes) {
         if (live_nodes->size() != verts.size()) { t.fail("set of live nodes differs from the set of referenced nodes"); return t; }
-        for (unsigned v : *live_nodes) if (!verts.count(v)) { t.fail("a live node is not referenced by any triangle"); return t; }
+        for (unsigned v : *live_nodes) if (!std::binary_search(verts.begin(), verts.end(), v)) { t.fail("a live node is not referenced by any triangle"); return t; }
     }
     return t;
 }
